@@ -136,7 +136,8 @@ pub fn profile(name: &str) -> Profile {
             w_ttl: [3, 2, 3, 8, 8],
             time_ns: &[0, 1, 2, 50, 400, 5_000, 1_000_000_000, u64::MAX],
             head_ks: &[1, 2, 3, 7, u32::MAX],
-            topics: vec!["a".into(), "ab".into(), "a.b".into(), "a\u{1}".into(), "".into(), "abc".into()],
+            // (two topics that merely start with the registration topic: retention rules apply to them as to any other)
+            topics: vec!["a".into(), "ab".into(), "a.b".into(), "a\u{1}".into(), "".into(), "abc".into(), "xs.contexts".into(), "xs.context.note".into()],
             import_registrations: false,
             ..base
         },
